@@ -287,6 +287,12 @@ def run(ctx):
     # must be treated like any other name (the grammar knows no keywords)
     tok = ("a", "bool", "string", "<", ">", ",")
     plans = plans + [(tok, 7 if ctx.tier == "quick" else 8, 6)]
+    # characters that are special to string formatting, regular expressions
+    # and glob patterns are ordinary name characters for the grammar
+    plans = plans + [
+        (("a", "%", "<", ">", ","), 7 if ctx.tier == "quick" else 9, 7),
+        (("%s", "{0}", "\\", "*", "[", "<", ">", ","),
+         5 if ctx.tier == "quick" else 6, 5)]
     tasks = []
     for alpha, maxlen, pub in plans:
         tasks += tasks_for(alpha, maxlen, pub)
